@@ -165,6 +165,26 @@ pub fn layer_paths(_thorough: bool) -> Report {
         // never persisted: read -> write leaves the tree unchanged
         if le.write_to_layer_dir(&l).is_err() || snapshot(&l) != before { r.violation("fixpoint", "read -> write changed the layer directory", format!("{kinds:?}"), "unchanged".into(), "changed".into()); }
     }
+    // implicit entries apply AFTER the explicit ones of the same scope (explicit override / prepend / default on the same variables)
+    for (explicit, var, sub) in [("override", "PATH", "bin"), ("prepend", "LD_LIBRARY_PATH", "lib"), ("default", "PATH", "bin"), ("append", "LD_LIBRARY_PATH", "lib")] {
+        for start in [None, Some("/usr/start")] {
+            r.evaluations += 1; r.nontrivial += 1;
+            let t = tempfile::tempdir().unwrap(); let l = t.path().join("layer"); fs::create_dir_all(l.join(sub)).unwrap();
+            for d in ["env.build", "env.launch"] { fs::create_dir_all(l.join(d)).unwrap(); fs::write(l.join(d).join(format!("{var}.{explicit}")), "/opt/explicit").unwrap(); fs::write(l.join(d).join(format!("{var}.delim")), ":").unwrap(); }
+            let le = LayerEnv::read_from_layer_dir(&l).unwrap();
+            let mut e0 = Env::new(); if let Some(s) = start { e0.insert(var, s); }
+            // explicit first ...
+            let after_explicit: Option<String> = match (explicit, start) {
+                ("override", _) => Some("/opt/explicit".into()), ("default", None) => Some("/opt/explicit".into()), ("default", Some(s)) => Some(s.into()),
+                ("prepend", None) | ("append", None) => Some("/opt/explicit".into()), ("prepend", Some(s)) => Some(format!("/opt/explicit:{s}")), (_, Some(s)) => Some(format!("{s}:/opt/explicit")), _ => None };
+            // ... then the implicit prepend of <layer>/<sub>
+            let want = format!("{}:{}", l.join(sub).display(), after_explicit.unwrap());
+            for q in [Scope::Build, Scope::Launch] {
+                let g = le.apply(q.clone(), &e0);
+                if g.get(var).map(|v| v.to_string_lossy().to_string()) != Some(want.clone()) { r.violation("implicit_after_explicit", "the implicit layer path is prepended after the explicit entries of the scope were applied", format!("explicit {var}.{explicit}=/opt/explicit, {sub}/ is a directory, start {start:?}, scope {q:?}"), want.clone(), format!("{:?}", g.get(var))); }
+            }
+        }
+    }
     r.samples.push("kinds [3,1,0,5]: bin -> link to dir, lib dir, include absent, pkgconfig dangling".into());
     r
 }
